@@ -460,7 +460,7 @@ func (n *Node) options() []func(*dbft.Config[Hash]) {
 	opts := []func(*dbft.Config[Hash]){
 		dbft.WithLogger[Hash](n.log),
 		dbft.WithTimer[Hash](n.tm),
-		dbft.WithTimePerBlock[Hash](func() time.Duration { return sc.TPB }),
+		dbft.WithTimePerBlock[Hash](func() time.Duration { return sc.TPBAt(n.tip().Idx + 1) }),
 		dbft.WithTimestampIncrement[Hash](sc.TSInc),
 		dbft.WithGetKeyPair[Hash](func(pubs []dbft.PublicKey) (int, dbft.PrivateKey, dbft.PublicKey) {
 			for i, p := range pubs {
@@ -562,7 +562,7 @@ func (n *Node) options() []func(*dbft.Config[Hash]) {
 	}
 	if sc.MaxTPB > 0 {
 		opts = append(opts,
-			dbft.WithMaxTimePerBlock[Hash](func() time.Duration { return sc.MaxTPB }),
+			dbft.WithMaxTimePerBlock[Hash](func() time.Duration { return sc.MaxTPBAt(n.tip().Idx + 1) }),
 			dbft.WithSubscribeForTxs[Hash](func() {
 				n.subscribed = true
 				n.out(Out{Kind: OSubscribe})
@@ -573,12 +573,15 @@ func (n *Node) options() []func(*dbft.Config[Hash]) {
 }
 
 func (n *Node) verifyTxs(txs []dbft.Transaction[Hash]) bool {
+	ok := true
 	for _, t := range txs {
-		if tx, ok := t.(*Tx); ok && tx != nil && tx.Invalid {
-			return false
+		if tx, isTx := t.(*Tx); isTx && tx != nil && tx.Invalid {
+			ok = false
+			// a mempool drops a transaction once block verification has rejected it
+			delete(n.pool, tx.Hash())
 		}
 	}
-	return true
+	return ok
 }
 
 func (n *Node) cbGetVerified() []dbft.Transaction[Hash] {
